@@ -791,6 +791,21 @@ fn c_params(c: &Case, rep: &mut Rep) {
                 rep.fail("BoxedMontyParams.new_eq_new_vartime", "constructors disagree".into());
             }
             check_param_dbg(rep, "BoxedMontyParams::new", &format!("{:?}", bp), &d);
+            // construction through a shared parameter handle is the same value as through an owned copy
+            if c.a.len() > 1 && !to_big(m).is_one() {
+                let mut xv = c.a[1].clone();
+                xv.resize(m.len(), 0);
+                let x = bx(&xv);
+                let by_val = BoxedMontyForm::new(x.clone(), bp.clone());
+                let by_arc = BoxedMontyForm::new_with_arc(x.clone(), std::sync::Arc::new(bp.clone()));
+                if by_val != by_arc || by_val.as_montgomery() != by_arc.as_montgomery() || by_arc.retrieve() != by_val.retrieve() {
+                    rep.fail("BoxedMontyForm.new_with_arc_eq_new", format!("x={}", hex(&xv)));
+                }
+                let want = to_big(&xv) % to_big(m);
+                if bb(&by_arc.retrieve()) != want {
+                    rep.fail("BoxedMontyForm.new_with_arc.retrieve_eq_x_mod_m", format!("x={}", hex(&xv)));
+                }
+            }
         }
     }
     // constant-time constructor exists where Concat/Split are implemented
